@@ -7,35 +7,69 @@ package main
 
 import (
 	"fmt"
+	"os"
 	"sort"
 	"strings"
 	"time"
 
 	"github.com/Flowpack/prunner"
+	"github.com/Flowpack/prunner/store"
+	"github.com/Flowpack/prunner/taskctl"
 )
 
 type X2Config struct {
-	Name      string
-	Cfgs      []PipeCfg // definition alphabet for pipeline "p" (Cfgs[0] is the initial one)
-	Depth     int
-	Sbad      bool
-	FailOK    bool
-	Reload    bool
-	Cancel    bool
-	Save      bool
-	Symmetry  bool
-	AdvSteps  []time.Duration
-	Props     map[string]bool // which monitors to run
-	Drain     bool
-	MaxStates int
+	Name         string
+	Cfgs         []PipeCfg // definition alphabet for pipeline "p" (Cfgs[0] is the initial one)
+	Depth        int
+	Sbad         bool
+	FailOK       bool
+	Reload       bool
+	Cancel       bool
+	Save         bool
+	Symmetry     bool
+	AdvSteps     []time.Duration
+	Props        map[string]bool // which monitors to run
+	Drain        bool
+	MaxStates    int
+	DefsOverride []*definitionPipelinesDef // full definition sets (several pipelines); overrides Cfgs
+	Pipes        []string
+	LogDir       bool // real FileOutputStore in a temp directory; the mock runner writes a log per task
+	Initial      *store.PersistedData
+	Restart      bool // C10: save + restart check at every new state
+	logDir       string
 }
 
 func (c *X2Config) opts() WorldOpts {
 	var defs []*definitionPipelinesDef
-	for _, pc := range c.Cfgs {
-		defs = append(defs, mkDefs(map[string]PipeCfg{"p": pc}))
+	if c.DefsOverride != nil {
+		defs = c.DefsOverride
+	} else {
+		for _, pc := range c.Cfgs {
+			defs = append(defs, mkDefs(map[string]PipeCfg{"p": pc}))
+		}
 	}
-	return WorldOpts{Defs: defs, WithStore: c.Save}
+	o := WorldOpts{Defs: defs, WithStore: c.Save || c.Restart, Initial: c.Initial}
+	if c.LogDir {
+		dir, err := os.MkdirTemp("", "verif-logs-")
+		if err != nil {
+			panic(err)
+		}
+		c.logDir = dir
+		os, err := taskctl.NewOutputStore(dir)
+		if err != nil {
+			panic(err)
+		}
+		o.OutStore = os
+		o.LogDirPath = dir
+	}
+	return o
+}
+
+func (c *X2Config) pipes() []string {
+	if len(c.Pipes) > 0 {
+		return c.Pipes
+	}
+	return []string{"p"}
 }
 
 // events returns the alphabet at the current (quiescent) state, simplest first
@@ -43,7 +77,9 @@ func (c *X2Config) events(w *World) []XEvent {
 	d := w.dump()
 	var evs []XEvent
 	if !d.ShuttingDown {
-		evs = append(evs, XEvent{Kind: "S", P: "p"})
+		for _, p := range c.pipes() {
+			evs = append(evs, XEvent{Kind: "S", P: p})
+		}
 	}
 	for _, rs := range w.ParkedRuns() {
 		evs = append(evs, XEvent{Kind: "Dok", Job: w.Mocks[rs.inst-1].job, Task: rs.task})
@@ -69,7 +105,11 @@ func (c *X2Config) events(w *World) []XEvent {
 		evs = append(evs, XEvent{Kind: "Sbad", P: "p"})
 	}
 	if c.Reload {
-		for i := range c.Cfgs {
+		ndefs := len(c.Cfgs)
+		if c.DefsOverride != nil {
+			ndefs = len(c.DefsOverride)
+		}
+		for i := 0; i < ndefs; i++ {
 			if i != w.DefIdx {
 				evs = append(evs, XEvent{Kind: "R", Def: i})
 			}
@@ -94,6 +134,9 @@ func (c *X2Config) replayHist(hist []XEvent) *World {
 }
 
 func (c *X2Config) step(w *World, ev XEvent) bool {
+	if c.LogDir && ev.Kind == "Save" {
+		w.logsBefore = logDirState(w.Opts.LogDirPath)
+	}
 	ok := w.ApplyX(ev)
 	q := w.Quiesce()
 	w.log(Event{Kind: EvQuiescent, Dump: w.dump(), Detail: ev.String()})
@@ -201,6 +244,10 @@ func (c *X2Config) Run(deadline time.Time, auditSlice int) *X2Result {
 					if len(hist) > res.MaxDepth {
 						res.MaxDepth = len(hist)
 					}
+					var rc *restartCtx
+					if c.Restart {
+						rc = restartPhase1(w2)
+					}
 					if c.Drain {
 						if !w2.Drain(200) {
 							addViol([]Violation{{Property: "C03", Rule: "drain", Norm: "drain-does-not-terminate", Msg: "completing all tasks and firing all timers does not reach a final quiescent state"}}, hist, w2)
@@ -210,6 +257,11 @@ func (c *X2Config) Run(deadline time.Time, auditSlice int) *X2Result {
 						}
 					}
 					next = append(next, node{hist})
+					if rc != nil {
+						w2.Close()
+						addViol(restartPhase2(rc), hist, w2)
+						continue
+					}
 				} else if auditSlice > 0 && int(hashStr(key)%uint64(auditSlice)) == 0 && depth+1 < c.Depth {
 					// merge audit: the representative and the newcomer must have the same successors
 					res.Audits++
@@ -311,6 +363,13 @@ func (c *X2Config) check(w *World, pre, post *Dump, ev XEvent, preLen int, liste
 	}
 	if c.Props["C16"] {
 		vs = append(vs, monC16(w, f)...)
+	}
+	if c.Props["C12"] {
+		var after map[string]string
+		if c.LogDir {
+			after = logDirState(w.Opts.LogDirPath)
+		}
+		vs = append(vs, monC12(w, pre, post, ev, w.logsBefore, after, w.S.Elapsed())...)
 	}
 	return vs
 }
